@@ -187,6 +187,22 @@ func mutations(r *common.Rand, b []byte, knownTypes []uint64, thorough bool) []m
 		}
 		add("type", splice(b, t[0], t[1], c13.EncTL(nt)))
 	}
+	// backward skip: an unknown non-critical element whose length is the negative of its own header size
+	// (Skip(int(l)) would land on the element again), and neighbours of that value
+	for i := 0; i < len(lfs) && i < 6; i++ {
+		lf := lfs[(i*5+r.Intn(5))%len(lfs)]
+		t := typs[0]
+		for _, tt := range typs {
+			if tt[0]+tt[1] == lf.off {
+				t = tt
+			}
+		}
+		for _, back := range []uint64{10, 9, 11, uint64(10 + t[0]), 1, 2, 20} {
+			nb := splice(b, lf.off, lf.size, c13.EncTL(^uint64(0)-back+1))
+			nb = splice(nb, t[0], t[1], []byte{0xf0})
+			add("skipback", nb)
+		}
+	}
 	// byte-level noise
 	for i := 0; i < 6 && len(b) > 0; i++ {
 		nb := append([]byte{}, b...)
